@@ -14,7 +14,7 @@ import numpy as _np
 import z3
 
 from . import engine as _eng
-from .values import Sym, SymBool, lift, Unsupported, ratfun, ONE, ZERO, _mul, _is_one, _same, _to_real, rv
+from .values import Sym, SymBool, lift, Unsupported, ratfun, ONE, ZERO, _mul, _is_one, _same, _to_real, rv, frac_add
 
 
 def _has_sym(x):
@@ -99,18 +99,47 @@ def _tobool_array(a):
     return a
 
 
+HOOKS = {}
+
+
+def _exact_log(x, shift):
+    """log / log1p of a concrete finite number as an exact log-kind value."""
+    if isinstance(x, (bool, _np.bool_)) or not isinstance(x, (int, float, _np.integer, _np.floating)):
+        return None
+    f = float(x)
+    if not math.isfinite(f) or f + shift <= 0 or f + shift == 1.0:
+        return None
+    from fractions import Fraction
+    return Sym(ZERO, rv(Fraction(f) + shift), ONE)
+
+
 def _un(name, sym_method, conc):
     def one(x):
+        h = HOOKS.get(name)
+        if h is not None:
+            h(x)
         if isinstance(x, Sym):
             return getattr(x, sym_method)()
         if isinstance(x, SymBool):
             return getattr(lift(x), sym_method)()
+        if name == "log" and _eng.CURRENT is not None and getattr(_eng.CURRENT, "mode", "") == "sym":
+            r = _exact_log(x, 0)
+            if r is not None:
+                return r
+        if name == "log1p" and _eng.CURRENT is not None and getattr(_eng.CURRENT, "mode", "") == "sym":
+            r = _exact_log(x, 1)
+            if r is not None:
+                return r
         with _np.errstate(all="ignore"):
             return conc(x)
 
     def f(x, *a, **k):
         k.pop("dtype", None)
         if not _has_sym(x):
+            if name in ("log", "log1p") and not isinstance(x, _np.ndarray) and not a and not k:
+                return one(x)
+            if HOOKS.get(name) is not None:
+                _map(HOOKS[name], x) if isinstance(x, _np.ndarray) else HOOKS[name](x)
             return getattr(_np, name)(x, *a, **k)
         return _map(one, x)
     f.__name__ = name
@@ -131,9 +160,8 @@ def _logaddexp1(a, b):
         return s  # -inf is the identity
     A1, B1 = la.value_pair()
     A2, B2 = lb.value_pair()
-    if _same(B1, B2):
-        return Sym(ZERO, A1 + A2, B1)
-    return Sym(ZERO, _mul(A1, B2) + _mul(A2, B1), _mul(B1, B2))
+    N, D = frac_add(A1, B1, A2, B2)
+    return Sym(ZERO, N, D)
 
 
 def logaddexp(a, b, *args, **kw):
@@ -164,10 +192,8 @@ def _lse_list(vals, weights=None):
             A, B = _mul(A, wn), _mul(B, wd)
         if N is None:
             N, D = A, B
-        elif _same(D, B):
-            N = N + A
         else:
-            N, D = _mul(N, B) + _mul(A, D), _mul(D, B)
+            N, D = frac_add(N, D, A, B)
     if N is None:
         return -math.inf
     return Sym(ZERO, N, D)
@@ -341,7 +367,7 @@ class SymNumpy(types.ModuleType):
     def zeros(shape, dtype=None, *a, **k):
         if _is_floaty(dtype):
             r = _np.empty(shape, dtype=object)
-            r[...] = 0.0
+            r[...] = Sym(ZERO)
             return r
         return _np.zeros(shape, dtype, *a, **k)
 
@@ -349,7 +375,7 @@ class SymNumpy(types.ModuleType):
     def ones(shape, dtype=None, *a, **k):
         if _is_floaty(dtype):
             r = _np.empty(shape, dtype=object)
-            r[...] = 1.0
+            r[...] = Sym(ONE)
             return r
         return _np.ones(shape, dtype, *a, **k)
 
@@ -373,7 +399,7 @@ class SymNumpy(types.ModuleType):
     def zeros_like(x, dtype=None, *a, **k):
         if isinstance(x, _np.ndarray) and x.dtype == object and dtype is None:
             r = _np.empty(x.shape, dtype=object)
-            r[...] = 0.0
+            r[...] = Sym(ZERO)
             return r
         return _np.zeros_like(x, dtype, *a, **k)
 
@@ -381,9 +407,26 @@ class SymNumpy(types.ModuleType):
     def ones_like(x, dtype=None, *a, **k):
         if isinstance(x, _np.ndarray) and x.dtype == object and dtype is None:
             r = _np.empty(x.shape, dtype=object)
-            r[...] = 1.0
+            r[...] = Sym(ONE)
             return r
         return _np.ones_like(x, dtype, *a, **k)
+
+    @staticmethod
+    def arange(*a, **k):
+        r = _np.arange(*a, **k)
+        if k.get("dtype") in (float, _np.float64, "f8", "float"):
+            o = _np.empty(r.shape, dtype=object)
+            for i, v in enumerate(r):
+                o[i] = Sym(rv(float(v)))
+            return o
+        return r
+
+    @staticmethod
+    def cumsum(x, *a, **k):
+        h = HOOKS.get("cumsum")
+        if h is not None:
+            h(x)
+        return _np.cumsum(x, *a, **k)
 
     @staticmethod
     def any(x, *a, **k):
@@ -447,6 +490,39 @@ class SymNumpy(types.ModuleType):
     def errstate(**k):
         return _np.errstate(**k)
 
+    @property
+    def random(self):
+        return symrandom
+
+    @staticmethod
+    def isclose(a, b, rtol=1e-05, atol=1e-08, equal_nan=False):
+        if not (_has_sym(a) or _has_sym(b)):
+            return _np.isclose(a, b, rtol=rtol, atol=atol, equal_nan=equal_nan)
+
+        def one(x, y):
+            lx, ly = lift(x), lift(y)
+            if isinstance(lx, float) or isinstance(ly, float):
+                if isinstance(lx, float) and isinstance(ly, float):
+                    return bool(_np.isclose(lx, ly, rtol=rtol, atol=atol, equal_nan=equal_nan))
+                return False
+            d = x - y
+            return bool(abs(d) <= atol + rtol * abs(y))
+        r = _map(one, a, b)
+        return _tobool_array(r) if isinstance(r, _np.ndarray) else r
+
+    @staticmethod
+    def allclose(a, b, rtol=1e-05, atol=1e-08, equal_nan=False):
+        return bool(_np.all(SymNumpy.isclose(a, b, rtol=rtol, atol=atol, equal_nan=equal_nan)))
+
+    @staticmethod
+    def array_equal(a, b, *args, **k):
+        if not (_has_sym(a) or _has_sym(b)):
+            return _np.array_equal(a, b, *args, **k)
+        a, b = _np.asarray(a), _np.asarray(b)
+        if a.shape != b.shape:
+            return False
+        return bool(_np.all(_tobool_array(_map(lambda x, y: x == y, a, b))))
+
 
 def smax(a, b):
     """ite-based max (no fork) for plain values; falls back to comparison."""
@@ -467,6 +543,112 @@ def smin(a, b):
     return a if a <= b else b
 
 
+class SymRandom:
+    """Nondeterministic stand-in for np.random inside patched modules.
+
+    rand/uniform return fresh symbolic reals constrained to the documented
+    half-open interval; choice / permutation are arbitrary (forked) unless a
+    handler is installed.  Every call is recorded in `calls`.
+    """
+
+    def __init__(self):
+        self.calls = []
+        self.handlers = {}
+
+    def reset(self):
+        self.calls = []
+        self.handlers = {}
+
+    def __getattr__(self, name):
+        def f(*a, **k):
+            self.calls.append((name, a, k))
+            h = self.handlers.get(name)
+            if h is not None:
+                return h(*a, **k)
+            raise Unsupported(f"np.random.{name} has no nondeterministic model")
+        return f
+
+    def _fresh_unit(self, ctx):
+        u = ctx.real(ctx.fresh("u"), lo=0)
+        ctx.assume(u < 1)
+        return u
+
+    def rand(self, *shape):
+        self.calls.append(("rand", shape, {}))
+        h = self.handlers.get("rand")
+        if h is not None:
+            return h(*shape)
+        ctx = _eng.CURRENT
+        if not shape:
+            return self._fresh_unit(ctx)
+        out = _np.empty(shape, dtype=object)
+        flat = out.reshape(-1)
+        for i in range(flat.size):
+            flat[i] = self._fresh_unit(ctx)
+        return out
+
+    def random(self, size=None):
+        if size is None:
+            return self.rand()
+        return self.rand(*((size,) if isinstance(size, int) else tuple(size)))
+
+    def uniform(self, low=0.0, high=1.0, size=None):
+        self.calls.append(("uniform", (low, high, size), {}))
+        h = self.handlers.get("uniform")
+        if h is not None:
+            return h(low, high, size)
+        ctx = _eng.CURRENT
+
+        def one(lo, hi):
+            u = ctx.real(ctx.fresh("u"))
+            ctx.assume((u >= lo) & (u < hi))
+            return u
+        if size is None and not isinstance(low, _np.ndarray) and not isinstance(high, _np.ndarray):
+            return one(low, high)
+        shape = size if size is not None else _np.broadcast(low, high).shape
+        shape = (shape,) if isinstance(shape, int) else tuple(shape)
+        out = _np.empty(shape, dtype=object)
+        lo_b = _np.broadcast_to(_np.asarray(low, dtype=object), shape)
+        hi_b = _np.broadcast_to(_np.asarray(high, dtype=object), shape)
+        for idx in _np.ndindex(*shape):
+            out[idx] = one(lo_b[idx], hi_b[idx])
+        return out
+
+    def permutation(self, n):
+        self.calls.append(("permutation", (n,), {}))
+        h = self.handlers.get("permutation")
+        if h is not None:
+            return h(n)
+        ctx = _eng.CURRENT
+        items = list(range(n)) if isinstance(n, (int, _np.integer)) else list(n)
+        out = []
+        while items:
+            out.append(items.pop(ctx.choice("perm", len(items))))
+        return _np.array(out) if isinstance(n, (int, _np.integer)) else _np.array(out, dtype=getattr(n, "dtype", None))
+
+    def choice(self, a, size=None, replace=True, p=None):
+        self.calls.append(("choice", (a,), dict(size=size, replace=replace, p=p)))
+        h = self.handlers.get("choice")
+        if h is not None:
+            return h(a, size=size, replace=replace, p=p)
+        ctx = _eng.CURRENT
+        n = int(a) if isinstance(a, (int, _np.integer)) else len(a)
+        k = 1 if size is None else int(size)
+        pool = list(range(n))
+        out = []
+        for _ in range(k):
+            j = ctx.choice("choice", len(pool))
+            out.append(pool[j] if replace else pool.pop(j))
+        idx = _np.array(out, dtype=int)
+        if size is None:
+            idx = idx[0]
+        return idx if isinstance(a, (int, _np.integer)) else _np.asarray(a)[idx]
+
+    def seed(self, *a, **k):
+        self.calls.append(("seed", a, k))
+
+
+symrandom = SymRandom()
 symnp = SymNumpy()
 
 
